@@ -28,11 +28,17 @@ import vlib
 from vlib import q_lit, coq_list
 
 EPS32 = 2.0 ** -24
-ULPS = 64.0            # one-step tolerance: ULPS * EPS32 * (sum of the magnitudes entering the entry)
+ULPS = 16.0            # one-step tolerance: ULPS * EPS32 * (sum of the magnitudes entering the entry)
 TOL_MEAN = 2e-3        # whole-run binary64 model vs f32 implementation
 TOL_COV = 1e-2
 TOLQ_MEAN = 2e-4       # short exact-rational runs
 TOLQ_COV = 1e-3
+# Symmetry.  The implementation never symmetrises P: P[i][j] and P[j][i] are computed by different f32 summation
+# orders, and in exact arithmetic BOTH predict and update leave the difference P[i][j] - P[j][i] unchanged (update
+# subtracts the same correction from both).  So whatever rounding injects is never damped, while the entries
+# themselves shrink with every update: after a run of missed detections (large cross-covariance) followed by
+# re-acquisition the relative asymmetry reaches ~1e-2 of the current entries (observed 0.7%).  "Symmetric within
+# rounding" is therefore read as: |P[i][j] - P[j][i]| <= the ACCUMULATED one-step rounding allowances of the history.
 
 PREAMBLE = """From Coq Require Import List ZArith QArith Floats.
 From Similari Require Import Base.Num Model.Kalman.
@@ -296,10 +302,11 @@ def oracle_track(tr):
     n = tr["n"]
     N = 2 * n
     ty, wp, wv = tr["ty"], tr["wp"], tr["wv"]
-    worst = {"mean": 0.0, "cov": 0.0, "sym": 0.0, "dist": 0.0}
+    worst = {"mean": 0.0, "cov": 0.0, "sym": 0.0, "dist": 0.0, "rel_asym": 0.0}
     offstruct = 0
     tol = ULPS * EPS32
     stationary = tr["kind"].endswith("stationary")
+    acc = [[0.0] * N for _ in range(N)]      # accumulated rounding allowance for P[i][j] - P[j][i]
     for k, st in enumerate(tr["states"]):
         if st["step"] != k:
             fails.append((k, "harness-order", "state records out of order"))
@@ -322,6 +329,9 @@ def oracle_track(tr):
                               "mean[%d] = %r, textbook step of the previous state gives %r (allowed %.3g)" % (i, m[i], em[i], lim)))
                 break
         for i in range(N):
+            for j in range(N):
+                acc[i][j] += tol * (tP[i][j] + tP[j][i])
+        for i in range(N):
             bad = False
             for j in range(N):
                 lim = tol * tP[i][j] + 1e-30
@@ -332,10 +342,12 @@ def oracle_track(tr):
                                   "cov[%d][%d] = %r, textbook step of the previous state gives %r (allowed %.3g)" % (i, j, P[i][j], eP[i][j], lim)))
                     bad = True
                     break
-                rs = abs(P[i][j] - P[j][i]) / (tol * (tP[i][j] + tP[j][i]) + 1e-30)
+                rs = abs(P[i][j] - P[j][i]) / (acc[i][j] + 1e-30)
                 worst["sym"] = max(worst["sym"], rs)
+                if P[i][j] != P[j][i]:
+                    worst["rel_asym"] = max(worst["rel_asym"], abs(P[i][j] - P[j][i]) / (math.sqrt(abs(P[i][i] * P[j][j])) + 1e-300))
                 if rs > 1.0:
-                    fails.append((k, "cov-not-symmetric", "cov[%d][%d] = %r but cov[%d][%d] = %r" % (i, j, P[i][j], j, i, P[j][i])))
+                    fails.append((k, "cov-not-symmetric", "cov[%d][%d] = %r but cov[%d][%d] = %r (accumulated rounding allowance %.3g)" % (i, j, P[i][j], j, i, P[j][i], acc[i][j])))
                     bad = True
                     break
                 if i != j and i != j + n and j != i + n and P[i][j] != 0.0:
@@ -391,7 +403,7 @@ def pick_covsteps(L, rng_seed):
         s.add(a)
         a, b = b, a + b
     x = (rng_seed * 2654435761) & 0xFFFFFFFF
-    for _ in range(4):
+    for _ in range(8):
         x = (x * 1103515245 + 12345) & 0x7FFFFFFF
         s.add(x % (L + 1))
     return sorted(s)
@@ -433,16 +445,16 @@ def decode_case(s, n, nsteps, covsteps, arith):
     pos = 0
     cs = set(covsteps)
     for k in range(nsteps):
-        mean = [conv(p) for p in ps[pos:pos + N]]
-        pos += N
         if k in cs:
+            mean = [conv(p) for p in ps[pos:pos + N]]
+            pos += N
             cov = [conv(p) for p in ps[pos:pos + N * N]]
             pos += N * N
             d = [conv(p) for p in ps[pos:pos + nd]]
             pos += nd
             out.append((mean, cov, d))
         else:
-            out.append((mean, None, None))
+            out.append((None, None, None))
     if pos != len(ps):
         raise RuntimeError("model output has %d numbers, expected %d" % (len(ps), pos))
     return out
@@ -465,6 +477,8 @@ def compare_run(tr, model, tolm, tolc):
     worst_m = worst_c = 0.0
     first = None
     for k, (mm, mc, _) in enumerate(model):
+        if mm is None:
+            continue
         st = tr["states"][k]
         sc = mean_scales(tr, mm)
         for i in range(N):
@@ -575,7 +589,7 @@ def run(chk):
                       {"log": out[-4000:]}, found_input=False)
         chk.coverage.update({"evaluations": 0})
         return
-    n = 40 if chk.tier == "quick" else 400
+    n = 40 if chk.tier == "quick" else 240
     rc, out, err = run_harness(["gen", "--seed", chk.seed, "--n", n])
     trajs, _ = parse_output(out)
     rc2, out2, err2 = run_harness(["costs", "--seed", chk.seed, "--n", 200 if chk.tier == "quick" else 5000])
@@ -602,7 +616,7 @@ def run(chk):
     # ---- property oracle on the implementation's raw outputs -----------------------------------------------
     with Pool(vlib.NPROC) as pool:
         ores = pool.map(oracle_track, tracks, chunksize=1)
-    worst = {"mean": 0.0, "cov": 0.0, "sym": 0.0, "dist": 0.0}
+    worst = {"mean": 0.0, "cov": 0.0, "sym": 0.0, "dist": 0.0, "rel_asym": 0.0}
     offstruct = 0
     oracle_fail = []
     tmap = {t["tid"]: t for t in tracks}
@@ -665,6 +679,15 @@ def run(chk):
     for t in tracks:
         if any(o is not None for o in t["ops"]) and not t["kind"].endswith("stationary"):
             nontrivial.add((t["spec"], t["tid"][1]))
+    chk.assumptions = [
+        "theorems are exact-arithmetic (real-number instance of the model; transfer to the rational instance proved): "
+        "f32 rounding of the implementation is observed by the correspondence under the stated tolerances, not proved",
+        "side condition of the SPD / textbook theorems: weights non-zero and, at every update, the current height estimate "
+        "non-zero (box filter); the generators keep heights >= 1",
+        "nalgebra's kernels (matrix product, solve_lower_triangular, cholesky) are modelled mathematically; a zero pivot "
+        "(None -> unwrap panics) is outside the side condition",
+        "the noise multipliers 2, 10, 1e-2, 1e-5, 1e-1 are part of the specification and pinned in Model/Kalman.v",
+    ]
     chk.coverage.update({
         "evaluations": len(tracks) + len(costs),
         "histories": len(trajs), "tracks": len(tracks), "states_checked": nstates, "cost_probes": len(costs),
@@ -674,8 +697,8 @@ def run(chk):
                 "shrinking/growing, rotating; coordinates and heights 1..1e4; weights: defaults 1/20,1/160 (40%), 0.1/0.1, and "
                 "position 1/80..1/4 x velocity 1/640..1/8. non-trivial = a track with at least one update whose measurements "
                 "are not all equal to the first one; distinct by (history, point). EVERY state of every track is checked by "
-                "the oracle; the model is compared on every mean, on the covariance at ~15 steps per track, one exact step "
-                "and one distance per sampled state; cost: all f32 neighbours (+-4 ulp) of every CHI2INV95 entry and of "
+                "the oracle; the model is compared on mean and covariance at ~20 steps per track (whole run), one exact step "
+                "and one distance from the implementation's own state at ~5 of them; cost: all f32 neighbours (+-4 ulp) of every CHI2INV95 entry and of "
                 "100, offsets 1e-6..0.5, a 1/8 grid on [0,20] and random d up to 1e5",
         "samples": [t["spec"][:300] for t in list(trajs.values())[:3]],
         "input_distribution": dict(hist),
@@ -752,6 +775,7 @@ def model_stage(chk, tracks, cost_by, stats, wr, disagreements):
     res = [None] * len(exprs)
     for pos, i in enumerate(order):
         res[i] = vals[pos]
+    chk.log("model: %d whole-run evaluations done" % len(exprs))
     for (kind, ti), v in zip(meta, res):
         tr = tracks[ti]
         if kind == "S":
@@ -780,7 +804,7 @@ def model_stage(chk, tracks, cost_by, stats, wr, disagreements):
     meta = []
     for ti, tr in enumerate(tracks):
         N = 2 * tr["n"]
-        for k in tr["covsteps"]:
+        for k in sorted(set(tr["covsteps"][::5] + tr["covsteps"][-1:])):
             st = tr["states"][k]
             mq = ql(st["mean"])
             Pq = coq_list([ql(r) for r in mat(st["cov"], N)])
@@ -794,6 +818,7 @@ def model_stage(chk, tracks, cost_by, stats, wr, disagreements):
                                                        "None" if op is None else "(Some %s)" % ql(op)))
                 meta.append(("T", ti, k))
     vals = vlib.coq_eval(PREAMBLE, exprs, shard_size=max(1, len(exprs) // 32 + 1), tag="c07step", timeout=1500)
+    chk.log("model: %d one-step / distance evaluations done" % len(exprs))
     tol = ULPS * EPS32
     for (kind, ti, k), v in zip(meta, vals):
         tr = tracks[ti]
